@@ -112,6 +112,14 @@ Theorem C17_rejects_coords : forall h q w e s n lons lats,
 Proof. exact lc_rejects_coords. Qed.
 Print Assumptions C17_rejects_coords.
 
+(** the decidable statement that the generated case files evaluate on the
+    IMPLEMENTATION's output holds of the model's output for every input: a case
+    whose implementation output equals the model output cannot be a violation *)
+Theorem C17_decidable_statement_holds_of_model : forall h, 0 < h -> forall q w e s n coords,
+  lc_holds h q w e s n coords (longitude_continuity h q w e s n coords) = true.
+Proof. exact lc_model_holds. Qed.
+Print Assumptions C17_decidable_statement_holds_of_model.
+
 (** non-vacuity: the docstring's region, an arc across the 0/360 seam, an
     arc ending on a seam *)
 Example C17_nv1 : in_range 180 350 /\ in_range 180 10 /\ representable 180 350 10 /\
